@@ -76,6 +76,9 @@ class Receiver(object):
             repr(self.exc) if self.exc is not None else None, bool(self.transport.disconnecting))
 
   def canon(self):
+    if self.exc is not None:
+      # an exception escaped the handler: Twisted drops the connection, buffers no longer matter
+      return ('escaped', self.observable())
     skip = ('transport', 'factory', 'unpickler')
     vs = []
     for k, v in sorted(vars(self.proto).items()):
